@@ -51,6 +51,9 @@ for _name, _m in list(sys.modules.items()):
         if _v is not None and _v is not vtime._vsleep:
             raise RuntimeError(f"HARNESS-ERROR: {_name}.{_attr} is bound to the real sleep")
 
+import warnings  # noqa: E402
+
+warnings.simplefilter("ignore")  # "coroutine was never awaited" etc. are observations, not output
 logging.getLogger().addHandler(logging.NullHandler())
 logging.lastResort = None  # never write to stderr
 
